@@ -643,3 +643,39 @@ Theorem classified_are_read_introns : forall reads ops s, run (init reads) ops =
 Proof. intros reads ops s Rn v A. pose proof (inv_run _ _ _ _ (inv_init reads) Rn) as H. apply In_read_introns.
   apply in_app_or in A. destruct A as [A|A]; [exact (i_vert _ _ H _ A)|]. apply in_app_or in A. destruct A as [A|A]; [|exact (i_disc _ _ H _ A)].
   apply keys_in in A. destruct A as (x & A). exact (proj1 (i_map _ _ H _ _ A)). Qed.
+
+(* ---- filter_transcripts: whatever a pass removes from the storage leaves no row in the read table *)
+Lemma sinv_delete s t : SInv s ->
+  SInv (mkS (filter (fun x : Z * bool => negb (fst x =? t)) (models s)) (filter (fun e : Z * Z => negb (fst e =? t)) (rtab s)) (upd (cnt s) t 0)).
+Proof. intros [Hr Hc]. constructor; cbn [rtab cnt].
+  - intros t0 r A. apply filter_In in A. destruct A as [A B]. cbn [fst] in B. apply negb_true_iff, Z.eqb_neq in B. pose proof (Hr _ _ A) as X.
+    unfold ids in *. cbn [models]. apply in_map_iff in X. destruct X as ([t1 nv] & E1 & X). cbn in E1; subst. apply in_map_iff. exists (t0, nv). split; [reflexivity|].
+    apply filter_In. split; [exact X|]. cbn [fst]. apply negb_true_iff, Z.eqb_neq. exact B.
+  - intros t0. unfold nreads. cbn [rtab]. unfold upd. destruct (t0 =? t) eqn:E2; [lia|].
+    assert (X : filter (fun e : Z * Z => fst e =? t0) (filter (fun e : Z * Z => negb (fst e =? t)) (rtab s)) = filter (fun e : Z * Z => fst e =? t0) (rtab s)).
+    { clear -E2. induction (rtab s) as [|[a b] u IH]; cbn [filter fst]; [reflexivity|]. destruct (a =? t) eqn:E3; cbn [negb].
+      - apply Z.eqb_eq in E3. subst. rewrite Z.eqb_sym, E2. exact IH.
+      - cbn [filter fst]. destruct (a =? t0); [f_equal|]; exact IH. }
+    rewrite X. exact (Hc t0). Qed.
+
+Lemma filter_pass_sinv mnc subst cut bad s : SInv s -> SInv (filter_pass mnc subst cut bad s).
+Proof. unfold filter_pass. generalize (models s) at 1. intros l. revert s. induction l as [|m t IH]; intros s H; cbn [fold_left]; [exact H|]. apply IH.
+  destruct (negb (snd m)); [exact H|]. destruct (zmem (fst m) subst || (cnt s (fst m) <? Z.max mnc (cut (fst m))) || bad (fst m)); [apply sinv_delete; exact H|exact H]. Qed.
+Lemma filter_pass2_sinv subst s : SInv s -> SInv (filter_pass2 subst s).
+Proof. unfold filter_pass2. generalize (models s) at 1. intros l. revert s. induction l as [|m t IH]; intros s H; cbn [fold_left]; [exact H|]. apply IH.
+  destruct (snd m && zmem (fst m) subst); [apply sinv_delete; exact H|exact H]. Qed.
+
+(* every row of the read table after filter_transcripts (both passes: similar-isoform substitution, coverage cut-off, the MAPQ test of models with
+   at most two exons, second substitution) names a model that is still stored: a model removed by ANY pass takes its rows with it *)
+Theorem filter_transcripts_keeps_table_consistent : forall ops s mnc subst1_ cut bad subst2, srun store0 ops = Some s ->
+  let s' := filter_transcripts_model mnc subst1_ cut bad subst2 s in
+  forall t r, In (t, r) (rtab s') -> In t (ids s').
+Proof. intros ops s mnc s1 cut bad s2 Rn s' t r A. pose proof (sinv_run _ _ _ sinv0 Rn) as H.
+  exact (si_rows _ (filter_pass2_sinv s2 _ (filter_pass_sinv mnc s1 cut bad _ H)) _ _ A). Qed.
+
+(* and a model that a pass removes is gone together with all its rows *)
+Lemma delete_removes s t : let s' := mkS (filter (fun x : Z * bool => negb (fst x =? t)) (models s)) (filter (fun e : Z * Z => negb (fst e =? t)) (rtab s)) (upd (cnt s) t 0) in
+  ~ In t (ids s') /\ forall r, ~ In (t, r) (rtab s').
+Proof. cbn. split.
+  - unfold ids. cbn [models]. intros A. apply in_map_iff in A. destruct A as ([t0 nv] & E & A). cbn in E; subst. apply filter_In in A. destruct A as [_ A]. cbn [fst] in A. rewrite Z.eqb_refl in A. discriminate.
+  - intros r A. apply filter_In in A. destruct A as [_ A]. cbn [fst] in A. rewrite Z.eqb_refl in A. discriminate. Qed.
